@@ -4,7 +4,6 @@ package server
 // requested seeds (or a replay file) one bubble at a time, and writes one JSON line per run.
 
 import (
-	"syscall"
 	"bufio"
 	"encoding/json"
 	"fmt"
@@ -15,6 +14,7 @@ import (
 	"runtime/debug"
 	"strconv"
 	"sync/atomic"
+	"syscall"
 	"testing"
 	"time"
 )
